@@ -31,6 +31,9 @@ type Check struct {
 	// ShardByScenario distributes whole scenarios over the workers (many small trees)
 	// instead of splitting every scenario's tree at depth 2 (few large trees).
 	ShardByScenario bool
+	// YieldOnRelease puts a scheduling point after every Mutex/RWMutex unlock in all scenarios of the check
+	// (what a call does after giving up a lock is interleaved with the other threads)
+	YieldOnRelease bool
 }
 
 var registry = map[string]*Check{}
@@ -52,6 +55,11 @@ func scenariosOf(c *Check, tier string) []*explore.Scenario {
 					sc.Bound = b
 				}
 			}
+		}
+	}
+	if c.YieldOnRelease || os.Getenv("VERIF_YIELD_ON_RELEASE") != "" {
+		for _, sc := range scs {
+			sc.Cfg.YieldOnRelease = true
 		}
 	}
 	return scs
@@ -363,7 +371,18 @@ func coordinator(c *Check, tier string) int {
 				return 2
 			}
 		}
-		for i := 0; i < 5 && c.ID != "C19"; i++ {
+		if f.SetLevel {
+			// a judgement about the set of executions: re-explore the whole scenario twice
+			for i := 0; i < 2; i++ {
+				st, again := explore.Explore(sc, explore.Options{})
+				if len(again) != 1 || again[0].V.Sig != f.V.Sig {
+					fmt.Fprintf(os.Stderr, "machinery error: set-level violation %q of %s does not reproduce\n", f.V.Sig, f.Scenario)
+					return 2
+				}
+				trace = st.OutcomeList()
+			}
+		}
+		for i := 0; i < 5 && c.ID != "C19" && !f.SetLevel; i++ {
 			ex, _, v := explore.RunOnce(sc, f.Prefix, true)
 			if v == nil || v.Sig != f.V.Sig {
 				fmt.Fprintf(os.Stderr, "machinery error: violation %q of %s does not replay deterministically\n", f.V.Sig, f.Scenario)
@@ -382,7 +401,11 @@ func coordinator(c *Check, tier string) int {
 			fmt.Printf("KNOWN-FINDING: property=%s %s [%s]\n", c.ID, what, f.V.Sig)
 			continue
 		}
-		path := writeReplay(c.ID, map[string]any{"property": c.ID, "engine": "sched", "tier": tier, "scenario": f.Scenario,
+		engine := "sched"
+		if f.SetLevel {
+			engine = "sched-set"
+		}
+		path := writeReplay(c.ID, map[string]any{"property": c.ID, "engine": engine, "tier": tier, "scenario": f.Scenario,
 			"prefix": f.Prefix, "sig": f.V.Sig, "msg": f.V.Msg, "trace": trace})
 		fmt.Printf("VIOLATION property=%s replay=%s\n", c.ID, path)
 		fmt.Fprintf(os.Stderr, "  %s: %s\n", f.Scenario, f.V.Msg)
@@ -497,6 +520,9 @@ func coordinator(c *Check, tier string) int {
 	}
 	b, _ := json.MarshalIndent(ev, "", " ")
 	evdir := filepath.Join(verifRoot(), "evidence")
+	if v := os.Getenv("VERIF_EVIDENCE_DIR"); v != "" {
+		evdir = v // runs against a scratch copy (mutants, seeded changes) must not overwrite the evidence of the real tree
+	}
 	_ = os.MkdirAll(evdir, 0o755)
 	if err := os.WriteFile(filepath.Join(evdir, c.ID+".json"), b, 0o644); err != nil {
 		fmt.Fprintln(os.Stderr, err)
@@ -553,6 +579,16 @@ func replay(c *Check, path string) int {
 		for _, sc := range c.Scenarios(tier) {
 			if sc.Name != m.Scenario {
 				continue
+			}
+			if m.Engine == "sched-set" {
+				st, found := explore.Explore(sc, explore.Options{})
+				fmt.Println(strings.Join(st.OutcomeList(), "\n"))
+				for _, f := range found {
+					fmt.Printf("VIOLATION property=%s replay=%s\n  %s\n", c.ID, path, f.V.Msg)
+					return 1
+				}
+				fmt.Println("replay: no violation")
+				return 0
 			}
 			ex, out, v := explore.RunOnce(sc, m.Prefix, true)
 			fmt.Println(strings.Join(ex.Trace, "\n"))
